@@ -140,6 +140,7 @@ func checkC07(rc *RunCtx) *Report {
 			out.Numbers["states"] += int64(x.States)
 			out.Numbers["transitions"] += int64(x.Transitions)
 			out.Numbers["split_steps"] += int64(x.Splits)
+			out.Numbers["map_order_deviations"] += int64(x.MapDeviations)
 			out.Numbers["idle_states"] += int64(x.IdleStates)
 			out.Numbers["candidates"] += int64(cands.total)
 			out.Numbers["unconfirmed_candidates"] += int64(cands.unconfirmed)
@@ -245,6 +246,7 @@ func checkC07(rc *RunCtx) *Report {
 			out.Numbers["states"] += int64(x.States)
 			out.Numbers["transitions"] += int64(x.Transitions)
 			out.Numbers["split_steps"] += int64(x.Splits)
+			out.Numbers["map_order_deviations"] += int64(x.MapDeviations)
 			out.Numbers["crash_transitions"] += int64(crashTrans)
 			out.Numbers["terminal_states"] += int64(len(terms))
 			out.Numbers["crash_free_outcomes"] += int64(len(noCrash))
